@@ -83,6 +83,23 @@ class FollowLinks(Suite):
                 reqs = [b"bin/*"] if rng.random() < 0.5 else [b"bin/c%03d" % i for i in range(N)]
                 ops.append({"op": "followlinks", "src": {"kind": "mem", "tree": tree}, "paths": [hx(q) for q in reqs]})
                 continue
+            if rng.random() < 0.04:
+                # an earlier request resolves a directory X; a later link points strictly BELOW X, at something that is itself a link
+                # (or holds one) leading out of X: the walk below X must still happen for the later request
+                D = lambda p: {"p": hx(p), "t": "dir", "uid": 0, "gid": 0, "mt": gen.MTIMES[0], "mode": 0o755}
+                L = lambda p, t: {"p": hx(p), "t": "symlink", "ln": hx(t), "uid": 0, "gid": 0, "mt": gen.MTIMES[0], "mode": 0o777}
+                Fl = lambda p: {"p": hx(p), "t": "file", "size": 1, "uid": 0, "gid": 0, "mt": gen.MTIMES[0], "mode": 0o644}
+                x, sub, inner, out, other = rng.sample(NAMES[:10], 5)
+                tree = [D(x), D(x + b"/" + sub), L(x + b"/" + sub + b"/" + inner, rng.choice([b"/" + out + b"/f", b"../../" + out + b"/f", b"/" + out])),
+                        D(out), Fl(out + b"/f"), D(other), L(other + b"/l", rng.choice([b"/", b"../"]) + x + b"/" + sub + b"/" + inner)]
+                if rng.random() < 0.5:
+                    tree[-1] = L(other + b"/l", rng.choice([b"/", b"../"]) + x + b"/" + sub)
+                tree.sort(key=lambda e: gen.pathkey(bytes.fromhex(e["p"])))
+                reqs = [x, other + b"/l"] if rng.random() < 0.7 else [other + b"/l", x]
+                if rng.random() < 0.3:
+                    reqs.append(other + b"/l/" + inner)
+                ops.append({"op": "followlinks", "src": {"kind": "mem" if rng.random() < 0.8 else "disk", "tree": tree}, "paths": [hx(q) for q in reqs]})
+                continue
             tree, paths = link_tree(rng)
             reqs = []
             for _ in range(rng.randint(1, 3)):
